@@ -12,7 +12,9 @@ package publish
 //@ ghost lastPatched(k any) int
 
 // inSync: every record description held in the local map is the provider's current one.
-//@ pure inSync(data map[zoneName]idData) bool = forall(k, has(data, k) ==> pub(recKey(cid(data[k].ZoneID), cid(data[k].RecordID))) == cid(data[k].Data.Value))
+//@ pure rk(data map[zoneName]idData, k int) int = recKey(cid(data[k].ZoneID), cid(data[k].RecordID))
+//@ pure inSync(data map[zoneName]idData) bool = forall(k, has(data, k) ==> pub(rk(data, k)) == cid(data[k].Data.Value)) &&
+//@     forall(k, forall(j, has(data, k) && has(data, j) && rk(data, k) == rk(data, j) ==> k == j))
 
 //@ func CloudflarePublisher.getZoneData returns (err)
 //@   trusted
